@@ -46,6 +46,51 @@ def no_reserved(b):
     return forall(0, len(b), lambda j: b[j] not in RWE)
 
 
+# ---- the scanner step, clause by clause as in lean/AshScanner.lean (relation `Step`, exits `Final`) ----------------
+def runs_decoded(fx):
+    """the raw runs handed to the decoder in this iteration"""
+    return [r[2][0] for r in fx if r[0] == "call" and r[1] == "bellows.ash.AshProtocol._unstuff_bytes"]
+
+
+def scanned(P, d0):
+    """the part of the old buffer that this iteration scans: all of it normally; while discarding, what follows the
+    FIRST flag byte (bytes.partition splits at the first occurrence, so nothing in front of it is a FLAG: Step.resync)"""
+    return P.partition(bytes([FLAG]))[2] if d0 else P
+
+
+def step_first_reserved_ok(S, r, c):
+    """noRWE x for the bytes x = S[:r] in front of the reserved byte found, which is the byte at r"""
+    return r >= 0 and forall(0, r, lambda j: S[j] not in RWE) and S[r] == c and c in RWE
+
+
+def step_kept_after_delimiter_ok(S, Pn, r, c):
+    """Step.flag / cancel / substitute keep exactly what follows the reserved byte"""
+    return implies(c == FLAG or c == CANCEL or c == SUBSTITUTE, Pn == S[r + 1 :])
+
+
+def step_kept_after_flow_control_ok(S, Pn, r, c):
+    """Step.xonxoff: only the XON / XOFF byte itself is removed"""
+    return implies(c == XON or c == XOFF, len(Pn) == len(S) - 1 and Pn[:r] == S[:r] and Pn[r:] == S[r + 1 :])
+
+
+def step_discard_flag_ok(dn, c):
+    """discarding afterwards iff the byte was SUBSTITUTE"""
+    return dn == (c == SUBSTITUTE)
+
+
+def step_runs_ok(S, r, c, runs):
+    """the run handed to the decoder: the non-empty run in front of a FLAG, nothing otherwise"""
+    return implies(c == FLAG and r > 0, len(runs) == 1 and runs[0] == S[:r]) and implies(not (c == FLAG and r > 0), runs == [])
+
+
+def exit_ok(P, Pn, d0, dn):
+    """Final.discarding: discarding and no FLAG in sight, everything dropped; Final.idle: nothing reserved in the
+    scanned part, which is kept as the residue"""
+    return (d0 and dn and len(Pn) == 0 and bytes([FLAG]) not in P) or (
+        not dn and implies(d0, bytes([FLAG]) in P) and Pn == scanned(P, d0) and forall(0, len(Pn), lambda j: Pn[j] not in RWE)
+    )
+
+
 @contract("bellows.ash.AshProtocol.data_received", props=["C02"])
 def _(c):
     c.self(ASH)
@@ -125,6 +170,22 @@ def _(c):
             ),
             # nothing is lost or invented: the buffer only shrinks
             ("buffer_only_shrinks", lambda self: len(self._buffer) <= old(len(self._buffer))),
+            # the iteration IS a step of the specification scanner (lean/AshScanner.lean: Step), or an exit (Final)
+            ("step.first_reserved_byte", lambda self, reserved_index, reserved_byte, broke: implies(
+                not broke, step_first_reserved_ok(scanned(old(self._buffer), old(self._discarding_until_next_flag)), reserved_index, reserved_byte))),
+            ("step.kept_after_a_delimiter", lambda self, reserved_index, reserved_byte, broke: implies(
+                not broke, step_kept_after_delimiter_ok(scanned(old(self._buffer), old(self._discarding_until_next_flag)), self._buffer,
+                                                        reserved_index, reserved_byte))),
+            ("step.kept_after_flow_control", lambda self, reserved_index, reserved_byte, broke: implies(
+                not broke, step_kept_after_flow_control_ok(scanned(old(self._buffer), old(self._discarding_until_next_flag)), self._buffer,
+                                                           reserved_index, reserved_byte))),
+            ("step.discard_flag", lambda self, reserved_byte, broke: implies(
+                not broke, step_discard_flag_ok(self._discarding_until_next_flag, reserved_byte))),
+            ("step.run_handed_to_the_decoder", lambda self, reserved_index, reserved_byte, broke, fx: implies(
+                not broke, step_runs_ok(scanned(old(self._buffer), old(self._discarding_until_next_flag)), reserved_index, reserved_byte, runs_decoded(fx)))),
+            # ... or an exit of it (Final.idle / Final.discarding), handing nothing up
+            ("exit.final_configuration", lambda self, broke, fx: implies(
+                broke, runs_decoded(fx) == [] and exit_ok(old(self._buffer), self._buffer, old(self._discarding_until_next_flag), self._discarding_until_next_flag))),
         ],
     )
     # after the callback the residue contains no frame delimiter: everything decodable was decoded
@@ -319,3 +380,50 @@ def _stream_standin(seed, tier):
 
 
 _index.standin("C02")(_stream_standin)
+
+
+# ---------------------------------------------------------------------------
+# specification-level lemma, machine-checked by Lean 4 (lean/AshScanner.lean): a scanner whose iterations satisfy the
+# step.* clauses above and which stops as in exit.final_configuration computes the byte-at-a-time reference decoder,
+# for every residue, discard flag and chunk (callback_refines), and the reference decoder does not depend on how the
+# stream is cut into reads (run_append, runChunks_eq).  Independent of /repo: it cannot be the reason a code change
+# is reported, and it is re-checked on every run (the kernel re-checks every proof term).
+# ---------------------------------------------------------------------------
+LEAN_THEOREMS = ("Ash.callback_refines", "Ash.runChunks_eq", "Ash.run_append")
+LEAN_ALLOWED_AXIOMS = {"propext", "Classical.choice", "Quot.sound"}
+
+
+def _lean_lemmas(tier):
+    import os
+    import re
+    import shutil
+    import subprocess
+    import time
+
+    root = os.path.dirname(os.path.dirname(os.path.abspath(__file__)))
+    src = os.path.join(root, "lean", "AshScanner.lean")
+    out = []
+    lean = shutil.which("lean")
+    t0 = time.time()
+    if lean is None or not os.path.exists(src):
+        return [{"name": f"lean::{th}", "verdict": "undecided", "backend": "lean4", "t": 0.0, "detail": "lean or the lemma file is missing"}
+                for th in LEAN_THEOREMS]
+    text = open(src).read()
+    try:
+        p = subprocess.run([lean, src], capture_output=True, text=True, timeout=600)
+        log = p.stdout + p.stderr
+        rc = p.returncode
+    except subprocess.TimeoutExpired:
+        log, rc = "lean timed out", 1
+    dt = time.time() - t0
+    for th in LEAN_THEOREMS:
+        m = re.search(r"'" + re.escape(th) + r"' (?:depends on axioms: \[([^\]]*)\]|does not depend on any axioms)", log)
+        axioms = set(a.strip() for a in (m.group(1) or "").split(",") if a.strip()) if m else None
+        ok = rc == 0 and "error" not in log and "sorry" not in text and m is not None and axioms <= LEAN_ALLOWED_AXIOMS
+        out.append({"name": f"lean::{th}", "verdict": "proved" if ok else "undecided", "backend": "lean4", "t": dt / len(LEAN_THEOREMS),
+                    "detail": (f"lean {os.path.basename(src)}: rc={rc}, axioms={sorted(axioms) if axioms is not None else None}" if ok
+                               else f"lean did not accept the lemma file: rc={rc} {log[-400:]}")})
+    return out
+
+
+_index.extra("C02")(_lean_lemmas)
